@@ -57,12 +57,7 @@ inductive Instr
   | flag (s : String)
   deriving DecidableEq, Repr, Inhabited
 
-inductive Ev
-  | out (b : Nat)
-  | flag (s : String)
-  | sleep (ms : Nat)
-  | note (s : String)     -- monitor output, never produced by `step`
-  deriving DecidableEq, Repr, Inhabited
+export HidVerif (Ev)
 
 structure Prog where
   w : Nat
